@@ -20,13 +20,30 @@ pub enum T {
     Id(String),
     App(String, Vec<T>),
     Fn(Box<T>, Box<T>),
+    /// `[a] -> b`
+    ImplFn(Box<T>, Box<T>),
+    Forall(Vec<String>, Box<T>),
     Rec(Vec<(String, T)>),
+    /// record type with type fields and an optional row variable: `{ Key = T, x : T | r }`
+    RecTy(Vec<(String, T)>, Vec<(String, T)>, Option<String>),
+    /// `[| name : T, .. | r |]`
+    Effect(Vec<(String, T)>, Option<String>),
     Tup(Vec<T>),
+}
+
+/// kinds of type parameters: `(f : (Type -> Type) -> Type)`
+#[derive(Clone, Debug)]
+pub enum K {
+    Type,
+    Row,
+    Fn(Box<K>, Box<K>),
 }
 
 #[derive(Clone, Debug)]
 pub enum TyBody {
     Variant(Vec<(String, Vec<T>)>),
+    /// `| Ctor : T -> R`
+    Gadt(Vec<(String, T)>),
     Alias(T),
 }
 
@@ -34,7 +51,7 @@ pub enum TyBody {
 pub struct TyBind {
     pub doc: Option<String>,
     pub name: String,
-    pub params: Vec<String>,
+    pub params: Vec<(String, Option<K>)>,
     pub body: TyBody,
 }
 
@@ -138,15 +155,43 @@ impl<'a> Gen<'a> {
         }
     }
     pub fn ty(&mut self, d: u32) -> T {
-        match self.rng.below(if d == 0 { 2 } else { 7 }) {
+        match self.rng.below(if d == 0 { 2 } else { 13 }) {
             0 | 1 => T::Id(self.rng.pick(TYPES).to_string()),
-            2 => T::App(self.rng.pick(TYCONS).to_string(), vec![self.ty(d - 1)]),
-            3 | 4 => T::Fn(Box::new(self.ty(d - 1)), Box::new(self.ty(d - 1))),
-            5 => {
+            2 => {
+                let n = 1 + self.rng.below(3) as usize;
+                T::App(self.rng.pick(TYCONS).to_string(), (0..n).map(|_| self.ty(d - 1)).collect())
+            }
+            3 | 4 | 5 => T::Fn(Box::new(self.ty(d - 1)), Box::new(self.ty(d - 1))),
+            6 => {
                 let n = 1 + self.rng.below(3) as usize;
                 T::Rec((0..n).map(|i| (FIELDS[i].to_string(), self.ty(d - 1))).collect())
             }
+            7 => T::ImplFn(Box::new(T::App("Show".into(), vec![self.ty(d - 1)])), Box::new(self.ty(d - 1))),
+            8 => {
+                let n = 1 + self.rng.below(2) as usize;
+                T::Forall((0..n).map(|i| ["a", "b"][i].to_string()).collect(), Box::new(self.ty(d - 1)))
+            }
+            9 => {
+                let nt = 1 + self.rng.below(2) as usize;
+                let nf = self.rng.below(3) as usize;
+                T::RecTy(
+                    (0..nt).map(|i| (["Key", "Elem"][i].to_string(), self.ty(d - 1))).collect(),
+                    (0..nf).map(|i| (FIELDS[i].to_string(), self.ty(d - 1))).collect(),
+                    if self.rng.chance(1, 3) { Some("r".into()) } else { None },
+                )
+            }
+            10 => {
+                let n = 1 + self.rng.below(2) as usize;
+                T::Effect((0..n).map(|i| (["state", "error"][i].to_string(), self.ty(d - 1))).collect(), if self.rng.chance(1, 2) { Some("r".into()) } else { None })
+            }
             _ => T::Tup(vec![self.ty(d - 1), self.ty(d - 1)]),
+        }
+    }
+    pub fn kind(&mut self, d: u32) -> K {
+        if d == 0 || self.rng.chance(2, 5) {
+            if self.rng.chance(1, 5) { K::Row } else { K::Type }
+        } else {
+            K::Fn(Box::new(self.kind(d - 1)), Box::new(self.kind(d - 1)))
         }
     }
     fn doc(&mut self) -> Option<String> {
@@ -166,13 +211,32 @@ impl<'a> Gen<'a> {
     }
     fn tybind(&mut self) -> TyBind {
         let np = self.rng.below(3) as usize;
-        let body = if self.rng.chance(1, 2) {
-            let n = 1 + self.rng.below(3) as usize;
-            TyBody::Variant((0..n).map(|i| (CTORS[(i + self.rng.below(4) as usize * 2) % CTORS.len()].to_string(), (0..self.rng.below(3)).map(|_| self.ty(1)).collect())).collect())
-        } else {
-            TyBody::Alias(self.ty(2))
+        let body = match self.rng.below(5) {
+            0 | 1 => {
+                let n = 1 + self.rng.below(3) as usize;
+                TyBody::Variant((0..n).map(|i| (CTORS[(i + self.rng.below(4) as usize * 2) % CTORS.len()].to_string(), (0..self.rng.below(3)).map(|_| self.ty(1)).collect())).collect())
+            }
+            2 => {
+                let n = 1 + self.rng.below(3) as usize;
+                TyBody::Gadt((0..n).map(|i| (CTORS[(i + self.rng.below(4) as usize * 2) % CTORS.len()].to_string(), self.ty(2))).collect())
+            }
+            _ => TyBody::Alias(self.ty(2)),
         };
-        TyBind { doc: self.doc(), name: format!("T{}", self.rng.below(5)), params: (0..np).map(|i| ["a", "b"][i].to_string()).collect(), body }
+        let params = (0..np)
+            .map(|i| {
+                let k = if self.rng.chance(1, 3) {
+                    // a bare `Type` annotation is a separate corpus case (the printer drops it)
+                    match self.kind(3) {
+                        K::Type => Some(K::Row),
+                        k => Some(k),
+                    }
+                } else {
+                    None
+                };
+                (["a", "b"][i].to_string(), k)
+            })
+            .collect();
+        TyBind { doc: self.doc(), name: format!("T{}", self.rng.below(5)), params, body }
     }
     pub fn expr(&mut self, d: u32) -> E {
         if d == 0 {
@@ -409,6 +473,30 @@ impl<'a> Printer<'a> {
                     self.w(")");
                 }
             }
+            T::ImplFn(a, b) => {
+                if prec >= 1 {
+                    self.w("(");
+                }
+                self.w("[");
+                self.ty(a, 0);
+                self.w("] -> ");
+                self.ty(b, 0);
+                if prec >= 1 {
+                    self.w(")");
+                }
+            }
+            T::Forall(vars, t) => {
+                if prec >= 1 {
+                    self.w("(");
+                }
+                self.w("forall ");
+                self.w(&vars.join(" "));
+                self.w(" . ");
+                self.ty(t, 0);
+                if prec >= 1 {
+                    self.w(")");
+                }
+            }
             T::Rec(fs) => {
                 self.w("{ ");
                 for (i, (n, t)) in fs.iter().enumerate() {
@@ -421,6 +509,49 @@ impl<'a> Printer<'a> {
                 }
                 self.w(" }");
             }
+            T::RecTy(ts, fs, rest) => {
+                self.w("{ ");
+                let mut first = true;
+                for (n, t) in ts {
+                    if !first {
+                        self.w(", ");
+                    }
+                    first = false;
+                    self.w(n);
+                    self.w(" = ");
+                    self.ty(t, 0);
+                }
+                for (n, t) in fs {
+                    if !first {
+                        self.w(", ");
+                    }
+                    first = false;
+                    self.w(n);
+                    self.w(" : ");
+                    self.ty(t, 0);
+                }
+                if let Some(r) = rest {
+                    self.w(" | ");
+                    self.w(r);
+                }
+                self.w(" }");
+            }
+            T::Effect(fs, rest) => {
+                self.w("[| ");
+                for (i, (n, t)) in fs.iter().enumerate() {
+                    if i > 0 {
+                        self.w(", ");
+                    }
+                    self.w(n);
+                    self.w(" : ");
+                    self.ty(t, 0);
+                }
+                if let Some(r) = rest {
+                    self.w(" | ");
+                    self.w(r);
+                }
+                self.w(" |]");
+            }
             T::Tup(ts) => {
                 self.w("(");
                 for (i, t) in ts.iter().enumerate() {
@@ -430,6 +561,26 @@ impl<'a> Printer<'a> {
                     self.ty(t, 0);
                 }
                 self.w(")");
+            }
+        }
+    }
+
+    fn kind(&mut self, k: &K, left: bool) {
+        match k {
+            K::Type => self.w("Type"),
+            K::Row => self.w("Row"),
+            K::Fn(a, b) => {
+                // needed on the left of an arrow, redundant (sometimes) on the right
+                let par = left || self.rng.chance(1, 6);
+                if par {
+                    self.w("(");
+                }
+                self.kind(a, true);
+                self.w(" -> ");
+                self.kind(b, false);
+                if par {
+                    self.w(")");
+                }
             }
         }
     }
@@ -488,12 +639,34 @@ impl<'a> Printer<'a> {
         self.doc(&tb.doc, ind);
         self.w("type ");
         self.w(&tb.name);
-        for p in &tb.params {
+        for (p, k) in &tb.params {
             self.w(" ");
-            self.w(p);
+            match k {
+                None => self.w(p),
+                Some(k) => {
+                    self.w("(");
+                    self.w(p);
+                    self.w(" : ");
+                    self.kind(k, false);
+                    self.w(")");
+                }
+            }
         }
         self.w(" =");
         match &tb.body {
+            TyBody::Gadt(vs) => {
+                for (c, t) in vs {
+                    if self.layout() {
+                        self.nl(ind + self.st.ind);
+                    } else {
+                        self.w(" ");
+                    }
+                    self.w("| ");
+                    self.w(c);
+                    self.w(" : ");
+                    self.ty(t, 0);
+                }
+            }
             TyBody::Alias(t) => {
                 self.w(" ");
                 self.ty(t, 0);
